@@ -164,6 +164,9 @@ func (w *World) Info() Info {
 	return in
 }
 
+// ReducedMinQuorum adds the minimal-quorum PRECOMMIT round (honest leader) to the reduced alphabet (C15).
+var ReducedMinQuorum bool
+
 // EquivocationProfile selects, in the reduced alphabet, the equivocating Byzantine leader
 // (L=4, produces real double-sign evidence) instead of the certificate re-proposing one (L=1,2).
 var EquivocationProfile bool
@@ -210,6 +213,12 @@ func OpsFor(in Info, reduced bool) []int {
 			pq := [3]int{s.P, s.Q1, s.Q2}
 			switch pq {
 			case [3]int{0, 0, 0}, [3]int{1, 0, 0}, [3]int{0, 1, 0}, [3]int{0, 0, 1}:
+			case [3]int{0, 2, 0}:
+				// PRECOMMIT reaching a minimal quorum only: some honest nodes lock, another keeps an older lock (or none).
+				// Liveness needs it (sixth-round seed C15: a holder of an older-root-height lock that never unlocks)
+				if !ReducedMinQuorum || s.L != 0 {
+					continue
+				}
 			default:
 				// COMMIT reaching exactly one honest node (each choice of the node)
 				if !(s.P == 0 && s.Q1 == 0 && s.Q2 >= 3 && s.Q2-3 != in.Byz) {
@@ -477,12 +486,17 @@ var _ = crypto.Hash
 // answer must name exactly S. It then re-sends the same two payloads with B's bitmap padded to everybody
 // (signature bytes unchanged: must be refused, and must not implicate anybody even though the genuine pair was
 // processed a moment ago on the same node).
-func AttributionViols(n int) (viols []mc.Viol, cases int) {
+// Positions listed in zero hold voting power 0 (a zero-stake member is in the quantifier of the committee properties): the
+// bitmap positions of everybody behind them must still be the positions of the member list.
+func AttributionViols(n int, zero ...int) (viols []mc.Viol, cases int) {
 	powers := make([]uint64, n)
 	for i := range powers {
 		powers[i] = 1
 	}
-	w := New(Config{Powers: powers, Byz: -1, BaseRH: 2, Timeouts: [7]int{10, 10, 10, 10, 10, 10, 10}})
+	for _, z := range zero {
+		powers[z] = 0
+	}
+	w := New(Config{Powers: powers, Byz: -1, BaseRH: 2, Timeouts: [7]int{10, 10, 10, 10, 10, 10, 10}, KeepZero: true})
 	b := w.Nodes[0].BFT
 	vs := w.ValSet()
 	view := &lib.View{NetworkId: NetworkID, ChainId: ChainID, Height: ChainHeight, RootHeight: 2, Round: 0, Phase: lib.Phase_PROPOSE_VOTE}
@@ -540,8 +554,8 @@ func AttributionViols(n int) (viols []mc.Viol, cases int) {
 				want[s] = true
 			}
 			if fmt.Sprint(got) != fmt.Sprint(want) {
-				viols = append(viols, mc.Viol{Sig: "C14:attribution:wrong-double-signers", What: fmt.Sprintf("committee of %d: validators %v signed both payloads of one view, ProcessDSE names %v", n, S, keysOf(got)),
-					Replay: map[string]any{"attribution": n, "signers": S}})
+				viols = append(viols, mc.Viol{Sig: "C14:attribution:wrong-double-signers", What: fmt.Sprintf("committee of %d (zero-power members at %v): validators %v signed both payloads of one view, ProcessDSE names %v", n, zero, S, keysOf(got)),
+					Replay: map[string]any{"attribution": n, "signers": S, "zero": zero}})
 			}
 			padded := cpq(part)
 			padded.Signature.Bitmap = append([]byte{}, full.Signature.Bitmap...)
